@@ -2,7 +2,7 @@
    Orderings = all event lists (Start, Tick, Exit c, PM c, Fin c) accepted by the controller model. *)
 From Coq Require Import List Bool Arith.
 Import ListNotations.
-Require Import V.Restart.Model V.Sched.Model V.Sched.Proofs V.Sched.Property V.Stage.Spec V.Stage.Proofs V.Stage.Progress.
+Require Import V.Restart.Model V.Sched.Model V.Sched.Proofs V.Sched.Property V.Stage.Spec V.Stage.Proofs V.Stage.Progress V.Stage.Bound.
 
 (* If no task exits unrecoverably by the rules (no component's rule-given state is failed) and the
    same-stage producers of repeating components simply finish, then in EVERY reachable state of EVERY
@@ -85,6 +85,20 @@ Proof.
   exact (progress W outcome s i WF I P Hc Hrun Hnd).
 Qed.
 Print Assumptions C02_progress.
+
+(* No ordering diverges: in ANY accepted event list, every component's task exits at most max_r + 7 times,
+   its post-mortem notification is delivered at most as often, and its finished-notification at most
+   once.  (Potential-function argument: each such event strictly decreases a per-component potential that
+   no event increases.)  With C02_progress: as long as the stage is incomplete something other than an idle
+   scheduler pass can happen, and only boundedly many such things can happen, so under fair delivery the
+   stage loop terminates. *)
+Theorem C02_bounded : forall W outcome evs s c,
+  run W true outcome state0 evs = Some s ->
+  total (is_exit c) evs <= max_r (cmp W c) + 7 /\
+  total (is_pm c) evs <= max_r (cmp W c) + 7 /\
+  total (is_fin_ev c) evs <= 1.
+Proof. intros W outcome evs s c H. exact (bounded W outcome evs s c H). Qed.
+Print Assumptions C02_bounded.
 
 (* non-vacuity: a 4-component workflow (two replicas feeding an aggregator, plus a consumer of it);
    replica 1 exits with a shutdownOn reason: rule-given states, hypotheses satisfied, and a complete
